@@ -193,7 +193,7 @@ class Gen:
         text = render_stmt(shape, mk, macro, rid, structured, words, ref_last=rng.random() < 0.3, module=module, rid_text=rid_text)
         return ["stmt", mk, text]
 
-    def source_file(self, structured, nstmts, size_class, ids, shapes=None, crlf=False, unicode_p=0.0, decoy_p=0.0):
+    def source_file(self, structured, nstmts, size_class, ids, shapes=None, crlf=False, unicode_p=0.0, decoy_p=0.0, layout_p=0.0):
         """ids: list (len nstmts) of planted IDs or None."""
         rng = self.rng
         total = SIZE_CLASSES[size_class]
@@ -207,10 +207,31 @@ class Gen:
                     rng.choice(["info", "warn", "log::error"]), rng.choice(["request_id", "\"abc\"", "id.0", "-1"]))
             if decoy_p and rng.random() < decoy_p:
                 head += "".join(rng.choice(DECOYS) for _ in range(rng.randrange(1, 4)))
+            if layout_p and rng.random() < layout_p:
+                # a very long line just before the statement
+                # (short words: one unbroken run of identifier characters would be the quadratic shape of DESIGN 12.7)
+                head += "    let _long = \"" + ("lorem ipsum, dolor (sit) amet; " * rng.choice([10, 160, 650])) + "\";\n"
             segs.append(["pad", head])
-            segs.append(self.stmt(structured, ids[i], shapes))
+            st = self.stmt(structured, ids[i], shapes)
+            segs.append(st)
+            if layout_p and rng.random() < layout_p and "\n" not in st[2].rstrip("\n"):
+                # a second statement on the same line (it has no ID yet)
+                st[2] = st[2].rstrip("\n") + " "
+                st2 = self.stmt(structured, None, ["bare", "fmt", "kv"])
+                st2[2] = st2[2].lstrip(" ")
+                segs.append(st2)
             segs.append(["pad", "}\n"])
         segs.append(["pad", make_pad(rng, total // (nstmts + 1), unicode_p)])
+        if layout_p and rng.random() < layout_p / 2:
+            # the file starts with a log statement at byte 0
+            st0 = self.stmt(structured, None, ["bare", "qual", "fmt"])
+            st0[2] = st0[2].lstrip(" ")
+            segs.insert(0, st0)
+        if layout_p and rng.random() < layout_p / 2:
+            # ... or ends with one, without a final newline
+            stz = self.stmt(structured, None, ["bare", "qual", "kv"])
+            stz[2] = stz[2].rstrip("\n")
+            segs.append(stz)
         if crlf:
             for s in segs:
                 s[-1] = s[-1].replace("\n", "\r\n")
@@ -298,7 +319,7 @@ def gen_ids(rng, n, p_have=0.4, lo=1, hi=60, special=None):
 
 def gen_world_model(rng, structured=None, use_cache="rand", nfiles=None, sizes=None, p_have=0.4, id_hi=60,
                     lock="rand", shapes=None, max_stmts=4, min_missing=1, special_ids=None, crlf_p=0.0, unicode_p=0.0,
-                    decoy_p=0.25, custom_macros_p=0.15):
+                    decoy_p=0.25, custom_macros_p=0.15, layout_p=0.1):
     """A project with generated in-scope source files under proj/src (nested sometimes)."""
     macros = None
     if rng.random() < custom_macros_p:
@@ -341,7 +362,7 @@ def gen_world_model(rng, structured=None, use_cache="rand", nfiles=None, sizes=N
         missing += sum(1 for i in ids if i is None)
         sc = rng.choice(sizes or ["tiny", "tiny", "tiny", "k8", "k64"])
         files["proj/src/" + names[fi]] = g.source_file(structured, ns, sc, ids, shapes, crlf=rng.random() < crlf_p,
-                                                       unicode_p=unicode_p, decoy_p=decoy_p)
+                                                       unicode_p=unicode_p, decoy_p=decoy_p, layout_p=layout_p)
     if missing < min_missing:
         # make sure there is work to do
         p = sorted(files)[0]
